@@ -41,7 +41,8 @@ type ProtoScenario struct {
 func (s *ProtoScenario) Cfg() sim.Config { return s.Config }
 
 func (s *ProtoScenario) Setup(k *sim.Kernel) {
-	svc, _ := buildService(s.Service, s.Scripts)
+	svc, regErrs := buildService(s.Service, s.Scripts)
+	reportRegErrs(k, s.Service, regErrs)
 	s.svc = svc
 	k.Spawn("serve", serveTask(svc, s.Service, context.Background()))
 	for i, c := range s.Clients {
@@ -460,6 +461,16 @@ func genScript(g *Gen, sizeClass func() int) Script {
 		sc.Actions = append(sc.Actions, Action{Op: "reply", Params: g.maybeParams(sizeClass())})
 	}
 	return sc
+}
+
+// callParams: what maybeParams gives, or (one time in eight) a parameters
+// member of the wrong type - what a call carries as parameters never changes
+// where it is routed to.
+func (g *Gen) callParams() string {
+	if g.IntN(8) == 0 {
+		return g.Pick(`{"interface":42}`, `[]`, `"x"`, `7`, `{"interface":null}`, `[{"interface":"a.b"}]`, `true`)
+	}
+	return g.maybeParams(0)
 }
 
 func (g *Gen) maybeParams(sizeClass int) string {
